@@ -400,3 +400,5 @@ def run(tier, seed):
 
 
 RULE += (" A sorted population whose members are copied (IndividualNSGAII.copy, IndividualSwarm.copy, deepcopy) and sorted again with 0..2 newcomers: second ranking correct and the first population's ranks untouched; selectors built with constructor options (dominance=EpsilonDominance, epsilons lists) over V3^2 x F, n<=4.")
+
+RULE += (' Beyond small: structured populations (chain, antichain, grid, duplicated, two-level, pseudo-random) of 31..257 members (thorough 1000, 1025) in two orders; populations mixing the individual classes (n<=4, every rotation).')
